@@ -243,6 +243,7 @@ def finish_setup(world, case):
     if fsspec.get("delay"):
         world.fsctl.delay = tuple(fsspec["delay"])
     world.fsctl.short_reads = bool(fsspec.get("short_reads"))
+    world.fsctl.close_returns = fsspec.get("close_returns")
     sspec = dict(case.get("server") or {})
     users = build_users(sspec.pop("users", None))
     if sspec.get("user_manager") not in (None, "memory"):
